@@ -1,9 +1,9 @@
 #!/venv/bin/python
-"""Self test of the code translator (harness/pyast2lean.py) and of the `…_tied` theorems.
+"""Self test of the code translator (harness/pyast2lean.py, both parts) and of the `…_tied` theorems.
 
 For every target group a list of SEMANTIC mutations (`>=` -> `>`, `//` -> `%`, dropped `break`, off-by-one, …)
 and of COSMETIC edits (comments, docstrings, log lines, renamed locals) is applied to an in-memory copy of
-the npTDMS source text (never to /repo); `Code.lean` is regenerated from the edited text into a scratch copy
+the npTDMS source text (never to /repo); `Code.lean` / `Code2.lean` are regenerated from the edited text into a scratch copy
 of the lake project and the tied theorems of the group are rebuilt there.
 
   expected:  semantic  -> the tie breaks  (translator raises Untranslatable, or `lake build` of the property fails)
@@ -27,10 +27,13 @@ import pyast2lean  # noqa: E402
 
 REPO = os.environ.get("NPTDMS_REPO", "/repo")
 LEAN = os.path.join(os.path.dirname(HERE), "lean")
-SCRATCH = os.path.join(os.environ.get("TMPDIR", "/tmp"), "nptdms_verif_tied_selftest")  # removed at the end of the run
+import hashlib  # noqa: E402
+SCRATCH = os.path.join(os.environ.get("TMPDIR", "/tmp"), "nptdms_verif_tied_selftest_" +
+                       hashlib.md5(HERE.encode()).hexdigest()[:8])  # removed at the end of the run
 
 SEG, DAQ, RD, TD, CM, TS, TY = ("nptdms/tdms_segment.py", "nptdms/daqmx.py", "nptdms/reader.py", "nptdms/tdms.py",
                                 "nptdms/common.py", "nptdms/timestamp.py", "nptdms/types.py")
+SC, TC, WR = "nptdms/scaling.py", "nptdms/thermocouples.py", "nptdms/writer.py"
 
 
 def sub(old, new, count=1):
@@ -182,7 +185,119 @@ GROUPS = {
         (C, "local `segment_obj` renamed in _reuse_previous_object", SEG, rename("TdmsSegment._reuse_previous_object", "segment_obj", "so")),
         (C, "local `new_obj` renamed in _update_existing_object", SEG, rename("TdmsSegment._update_existing_object", "new_obj", "replacement")),
     ]),
+    "C13": (["TdmsProofs.Properties.C13TiedBuild", "TdmsProofs.Properties.C13TiedEval", "TdmsProofs.Properties.C14Tied"], [
+        (S, "Linear: default input source RAW_DATA_INPUT_SOURCE -> 0", SC, in_function("LinearScaling.from_properties", sub("input_source = RAW_DATA_INPUT_SOURCE", "input_source = 0"))),
+        (S, "Linear: `properties.get(...) or RAW_DATA_INPUT_SOURCE` (input source 0 swallowed)", SC, in_function("LinearScaling.from_properties", sub('        try:\n            input_source = properties[\n                "NI_Scale[%d]_Linear_Input_Source" % scale_index]\n        except KeyError:\n            input_source = RAW_DATA_INPUT_SOURCE\n', '        input_source = properties.get("NI_Scale[%d]_Linear_Input_Source" % scale_index) or RAW_DATA_INPUT_SOURCE\n'))),
+        (S, "Linear: slope and intercept swapped in the constructor call", SC, in_function("LinearScaling.from_properties", lambda t: t.replace("Linear_Y_Intercept", "@@").replace("Linear_Slope", "Linear_Y_Intercept").replace("@@", "Linear_Slope"))),
+        (S, "Linear.scale: `data * slope + intercept` -> `data * intercept + slope`", SC, sub("return data * self.slope + self.intercept", "return data * self.intercept + self.slope")),
+        (S, "Subtract.scale: `right - left` -> `left - right`", SC, sub("return right_data - left_data", "return left_data - right_data")),
+        (S, "_compute_scaled_data: left operand computed from the right input source", SC, in_function("MultiScaling._compute_scaled_data", sub("left_input_data = self._compute_scaled_data(\n                scaling.left_input_source", "left_input_data = self._compute_scaled_data(\n                scaling.right_input_source"))),
+        (S, "_compute_scaled_data: operands passed to `scale` in the other order", SC, sub("return scaling.scale(left_input_data, right_input_data)", "return scaling.scale(right_input_data, left_input_data)")),
+        (S, "Polynomial: default number of coefficients 4 -> 3", SC, sub("number_of_coefficients = 4", "number_of_coefficients = 3")),
+        (S, "_get_channel_scaling: `scaling_status == \"scaled\"` -> `!=`", SC, sub('if scaling_status == "scaled":', 'if scaling_status != "scaled":')),
+        (S, "_get_channel_scaling: scale type 'Linear' -> 'linear'", SC, sub("elif scale_type == 'Linear':", "elif scale_type == 'linear':")),
+        (S, "_get_channel_scaling: unknown scale type skipped instead of `return None`", SC, sub('            log.warning("Unsupported scale type: %s", scale_type)\n            return None', '            log.warning("Unsupported scale type: %s", scale_type)\n            continue')),
+        (S, "get_scaling: group properties before channel properties", SC, sub("for p in [channel_properties, group_properties, file_properties]", "for p in [group_properties, channel_properties, file_properties]")),
+        (S, "_get_number_of_scalings: `+ 1` dropped", SC, sub("for m in matches if m is not None) + 1", "for m in matches if m is not None)")),
+        (S, "constant RAW_DATA_INPUT_SOURCE changed", SC, sub("RAW_DATA_INPUT_SOURCE = 0xFFFFFFFF", "RAW_DATA_INPUT_SOURCE = 0xFFFFFFFE")),
+        (S, "Table: only the scaled values are flipped", SC, sub("            scaled_values = np.flip(scaled_values)\n            pre_scaled_values = np.flip(pre_scaled_values)\n", "            scaled_values = np.flip(scaled_values)\n")),
+        (S, "_compute_scale_dtype: other scalings declare float32", SC, sub("return np.dtype('float64')", "return np.dtype('float32')")),
+        (S, "_compute_scale_dtype: NoOp scaling declares float64 instead of its input's type", SC, sub("        elif isinstance(scaling, NoOpScaling):\n            return self._compute_scale_dtype(scaling.input_source, raw_data_type, scaler_data_types)\n", "")),
+        (S, "Thermocouple: default type code 10072 -> 10073", SC, sub('"%s_Thermocouple_Type" % prefix, 10072)', '"%s_Thermocouple_Type" % prefix, 10073)')),
+        (C, "comment added", SC, after_line("_get_channel_scaling", "num_scalings = _get_number_of_scalings(properties)", "# a harmless comment")),
+        (C, "log line added", SC, after_line("_get_channel_scaling", "num_scalings = _get_number_of_scalings(properties)", 'log.debug("scales %s", num_scalings)')),
+        (C, "local `scaling_status` renamed", SC, rename("_get_channel_scaling", "scaling_status", "status")),
+        (C, "local `input_data` renamed in _compute_scaled_data", SC, rename("MultiScaling._compute_scaled_data", "input_data", "x")),
+        (C, "local `final_scale` renamed in MultiScaling.scale", SC, rename("MultiScaling.scale", "final_scale", "last")),
+        (C, "docstring of _compute_scaled_data changed", SC, sub('""" Compute output data from a single scale in the set of all scalings,\n            computing any required input scales recursively.\n        """', '""" One scale of the graph. """')),
+    ]),
+    "C17": (["TdmsProofs.Properties.C17Tied"], [
+        (S, "_adjust_for_lead_resistance: `resistance_configuration == 3` -> `== 4`", SC, sub("if resistance_configuration == 3:", "if resistance_configuration == 4:")),
+        (S, "_adjust_for_lead_resistance: `2.0 * lead_wire_resistance` -> `lead_wire_resistance`", SC, sub("return measured_resistance - 2.0 * lead_wire_resistance", "return measured_resistance - lead_wire_resistance")),
+        (S, "_adjust_for_lead_resistance: `excitation == CURRENT and config == 2` -> `or`", SC, sub("if excitation_type == CURRENT_EXCITATION and resistance_configuration == 2:", "if excitation_type == CURRENT_EXCITATION or resistance_configuration == 2:")),
+        (S, "RtdScaling.scale passes VOLTAGE_EXCITATION to the lead correction", SC, sub("r_t, CURRENT_EXCITATION, self.resistance_configuration, self.lead_wire_resistance)", "r_t, VOLTAGE_EXCITATION, self.resistance_configuration, self.lead_wire_resistance)")),
+        (S, "StrainScaling: constant FULL_BRIDGE_2 changed", SC, sub("FULL_BRIDGE_2 = 10184", "FULL_BRIDGE_2 = 10186")),
+        (S, "StrainScaling.scale: `(1.0 + poisson_ratio)` -> `(1.0 - …)` in full bridge II", SC, sub("self.voltage_excitation * self.gage_factor * (1.0 + self.poisson_ratio)))", "self.voltage_excitation * self.gage_factor * (1.0 - self.poisson_ratio)))")),
+        (S, "StrainScaling.scale: `initial_bridge_voltage != 0.0` -> `== 0.0`", SC, sub("if self.initial_bridge_voltage != 0.0:", "if self.initial_bridge_voltage == 0.0:")),
+        (S, "ThermistorScaling.scale: current / voltage excitation branches swapped", SC, in_function("ThermistorScaling.scale", lambda t: t.replace("== CURRENT_EXCITATION", "== @@").replace("== VOLTAGE_EXCITATION", "== CURRENT_EXCITATION").replace("== @@", "== VOLTAGE_EXCITATION"))),
+        (S, "RtdScaling.from_properties: properties RTD_A / RTD_B swapped", SC, in_function("RtdScaling.from_properties", lambda t: t.replace('"%s_RTD_A"', "@@").replace('"%s_RTD_B"', '"%s_RTD_A"').replace("@@", '"%s_RTD_B"'))),
+        (S, "StrainScaling.from_properties: gage factor read from the gain adjustment property", SC, in_function("StrainScaling.from_properties", sub('properties["%s_Gage_Factor" % prefix]', 'properties["%s_Bridge_Shunt_Calibration_Gain_Adjustment" % prefix]'))),
+        (C, "comment added", SC, after_line("_adjust_for_lead_resistance", "if resistance_configuration == 3:", "# a harmless comment")),
+        (C, "local `lead_adjustment` renamed in StrainScaling.scale", SC, rename("StrainScaling.scale", "lead_adjustment", "adj")),
+        (C, "local `temp` renamed in StrainScaling.scale", SC, rename("StrainScaling.scale", "temp", "denominator")),
+        (C, "local `prefix` renamed in RtdScaling.from_properties", SC, rename("RtdScaling.from_properties", "prefix", "pre")),
+    ]),
+    "C18": (["TdmsProofs.Properties.C18Tied"], [
+        (S, "Range.within_range: `value < self.end` -> `<=` (unbounded start)", TC, sub("            return value < self.end", "            return value <= self.end")),
+        (S, "Range.within_range: `self.start <= value` -> `<` (unbounded end)", TC, sub("            return self.start <= value", "            return self.start < value")),
+        (S, "Range.within_range: `&` -> `|`", TC, sub("return (self.start <= value) & (value < self.end)", "return (self.start <= value) | (value < self.end)")),
+        (S, "_verify_contiguous: `start != prev_end` -> `==`", TC, sub("polynomial.applicable_range.start != prev_end", "polynomial.applicable_range.start == prev_end")),
+        (S, "Range.__init__: `start >= end` -> `>`", TC, sub("and start >= end:", "and start > end:")),
+        (C, "comment added", TC, after_line("Range.within_range", "if self.start is None:", "# a harmless comment")),
+        (C, "local `prev_end` renamed in _verify_contiguous", TC, rename("_verify_contiguous", "prev_end", "last_end")),
+        (C, "docstring of class Range changed", TC, sub('""" A range with inclusive start and exclusive end\n    """', '""" Half open range. """')),
+    ]),
+    "C07": (["TdmsProofs.Properties.C07Tied", "TdmsProofs.Properties.C08Tied"], [
+        (S, "to_int_property_value: `value >= 2 ** 63` -> `>`", WR, sub("if value >= 2 ** 63:", "if value > 2 ** 63:")),
+        (S, "to_int_property_value: `value < -2 ** 31` -> `<=`", WR, sub("if value >= 2 ** 31 or value < -2 ** 31:", "if value >= 2 ** 31 or value <= -2 ** 31:")),
+        (S, "_infer_dtype: int64 threshold 2**32 -> 2**31", WR, sub("elif max_value >= 2**32 or min_value < -1 * 2**31:", "elif max_value >= 2**31 or min_value < -1 * 2**31:")),
+        (S, "_infer_dtype: `max >= 2**31 and min >= 0` -> `or`", WR, sub("elif max_value >= 2**31 and min_value >= 0:", "elif max_value >= 2**31 or min_value >= 0:")),
+        (S, "_path_ordering_key: keys of groups and channels swapped", WR, in_function("_path_ordering_key", lambda t: t.replace("return 1", "return @").replace("return 2", "return 1").replace("return @", "return 2"))),
+        (S, "ObjectPath.is_group: `self.channel is None` -> `is not None`", CM, sub("return self.group is not None and self.channel is None", "return self.group is not None and self.channel is not None")),
+        (S, "raw_data_index: index length 20 -> 24", WR, sub("data_index = [Uint32(20), data_type, dimension, num_values]", "data_index = [Uint32(24), data_type, dimension, num_values]")),
+        (S, "raw_data_index: total size of string data not appended", WR, sub("                data_index.append(Uint64(total_size))\n", "")),
+        (S, "raw_data_index: `!= Void` -> `== Void`", WR, sub("if hasattr(obj, 'data') and obj.data_type != Void:", "if hasattr(obj, 'data') and obj.data_type == Void:")),
+        (S, "object_data_size: `4 + len(s)` -> `8 + len(s)`", WR, sub("return sum(4 + len(s) for s in encoded_strings)", "return sum(8 + len(s) for s in encoded_strings)")),
+        (S, "leadin: `toc_mask | flag` -> `&`", WR, sub("toc_mask = toc_mask | toc_properties[toc_flag]", "toc_mask = toc_mask & toc_properties[toc_flag]")),
+        (S, "leadin: next segment offset without the metadata size", WR, sub("next_segment_offset = metadata_size + self._data_size()", "next_segment_offset = self._data_size()")),
+        (S, "leadin: tags of data file and index file swapped", WR, sub("Bytes(b'TDSh' if self.is_index_file else b'TDSm')", "Bytes(b'TDSm' if self.is_index_file else b'TDSh')")),
+        (S, "_data_size: `hasattr(obj, 'data')` -> `hasattr(obj, 'properties')`", WR, in_function("TdmsSegment._data_size", sub("if hasattr(obj, 'data'):", "if hasattr(obj, 'properties'):"))),
+        (S, "_to_tdms_value: `int` tested before `bool` (a bool is written as Int32)", WR, in_function("_to_tdms_value", sub("    if isinstance(value, bool) or isinstance(value, np.bool_):\n        return Boolean(value)\n    if isinstance(value, int):\n        return to_int_property_value(value)\n", "    if isinstance(value, int):\n        return to_int_property_value(value)\n    if isinstance(value, bool) or isinstance(value, np.bool_):\n        return Boolean(value)\n"))),
+        (S, "_to_tdms_value: a float is written as a String", WR, in_function("_to_tdms_value", sub("        return DoubleFloat(value)", "        return String(value)"))),
+        (S, "_to_tdms_value: `datetime` branch removed", WR, in_function("_to_tdms_value", sub("    if isinstance(value, datetime):\n        return TimeStamp(value)\n", ""))),
+        (S, "_to_tdms_value: `float` tested before `np.number` (np.float64 loses its numpy type)", WR, in_function("_to_tdms_value", lambda t: t.replace("    if isinstance(value, np.number):\n        return numpy_data_types[value.dtype](value)\n", "").replace("    if isinstance(value, float):\n        return DoubleFloat(value)\n", "    if isinstance(value, float):\n        return DoubleFloat(value)\n    if isinstance(value, np.number):\n        return numpy_data_types[value.dtype](value)\n"))),
+        (C, "comment added in _to_tdms_value", WR, after_line("_to_tdms_value", "if isinstance(value, np.number):", "# a harmless comment")),
+        (C, "comment added", WR, after_line("TdmsSegment.leadin", "toc_mask = 0", "# a harmless comment")),
+        (C, "local `data_index` renamed in raw_data_index", WR, rename("TdmsSegment.raw_data_index", "data_index", "index")),
+        (C, "local `toc_mask` renamed in leadin", WR, rename("TdmsSegment.leadin", "toc_mask", "mask")),
+        (C, "local `max_value` renamed in _infer_dtype", WR, rename("_infer_dtype", "max_value", "hi")),
+    ]),
+    "C08": (["TdmsProofs.Properties.C08TiedSegment"], [
+        (S, "write_segment: `add_root = not written and not any(root)` -> `or`", WR, sub("add_root = (not self._root_written) and (not any(p[0].is_root for p in path_object_pairs))", "add_root = (not self._root_written) or (not any(p[0].is_root for p in path_object_pairs))")),
+        (S, "write_segment: groups already written are added again", WR, sub("groups_to_add = sorted(groups_required - groups_included - self._groups_written)", "groups_to_add = sorted(groups_required - groups_included)")),
+        (S, "write_segment: the objects are not sorted (root / groups / channels)", WR, sub("        path_object_pairs.sort(key=lambda p: _path_ordering_key(p[0]))\n", "")),
+        (S, "write_segment: `is_group` / `is_channel` swapped in the included groups", WR, sub("groups_included = set(p[0].group for p in path_object_pairs if p[0].is_group)", "groups_included = set(p[0].group for p in path_object_pairs if p[0].is_channel)")),
+        (S, "write_segment: added groups appended BEFORE the root object", WR, sub("        if add_root:\n            path_object_pairs.append((ObjectPath(), RootObject()))\n        if groups_to_add:\n            path_object_pairs.extend((ObjectPath(g), GroupObject(g)) for g in groups_to_add)\n", "        if groups_to_add:\n            path_object_pairs.extend((ObjectPath(g), GroupObject(g)) for g in groups_to_add)\n        if add_root:\n            path_object_pairs.append((ObjectPath(), RootObject()))\n")),
+        (S, "write_segment: type guard `written_type != data_type` -> `==`", WR, sub("if written_type != data_type:", "if written_type == data_type:")),
+        (S, "write_segment: Void data takes part in the type guard", WR, sub("for o in objects if hasattr(o, 'data') and o.data_type != Void)", "for o in objects if hasattr(o, 'data'))")),
+        (S, "TdmsSegment.__init__: duplicate check `!=` -> `>`", WR, sub("if len(paths) != len(objects):", "if len(paths) > len(objects):")),
+        (S, "write_segment: `_root_written` stays False", WR, sub("self._root_written = True", "self._root_written = False")),
+        (S, "write_segment: the added groups are not remembered", WR, sub("        self._groups_written.update(groups_to_add)\n", "")),
+        (C, "comment added", WR, after_line("TdmsWriter.write_segment", "add_root = ", "# a harmless comment")),
+        (C, "local `groups_required` renamed", WR, rename("TdmsWriter.write_segment", "groups_required", "needed")),
+        (C, "local `add_root` renamed", WR, rename("TdmsWriter.write_segment", "add_root", "need_root")),
+        (C, "lambda parameter renamed in the sort key", WR, sub("key=lambda p: _path_ordering_key(p[0])", "key=lambda pair: _path_ordering_key(pair[0])")),
+    ]),
+    "C20": (["TdmsProofs.Properties.C20Tied"], [
+        (S, "TdmsReader.close: closes `_file` whenever it is set (also a caller's stream)", RD, in_function("TdmsReader.close", sub("if self._file_path is not None:", "if self._file is not None:"))),
+        (S, "TdmsReader.close: the index file is not closed", RD, in_function("TdmsReader.close", sub("            self._index_file.close()\n", "            pass\n"))),
+        (S, "TdmsReader.close: `_file is None and _index_file is None` -> `or`", RD, in_function("TdmsReader.close", sub("if self._file is None and self._index_file is None:", "if self._file is None or self._index_file is None:"))),
+        (S, "TdmsReader.close: the reference to the index file is kept", RD, in_function("TdmsReader.close", sub("\n        self._index_file = None", ""))),
+        (S, "TdmsWriter.open: the index file is opened from the data file's path", WR, in_function("TdmsWriter.open", sub("self._index_file = open(self._index_file_path,", "self._index_file = open(self._file_path,"))),
+        (S, "TdmsWriter.close: the index file is closed when the DATA path is set", WR, in_function("TdmsWriter.close", sub("if self._index_file_path is not None:", "if self._file_path is not None:"))),
+        (S, "TdmsReader.__init__: a TDSm stream is stored as the index file", RD, in_function("TdmsReader.__init__", sub('            elif tag == b"TDSm":\n                self._file = tdms_file', '            elif tag == b"TDSm":\n                self._index_file = tdms_file'))),
+        (S, "TdmsReader.__init__: index path recognised by `.tdms` instead of `.tdms_index`", RD, in_function("TdmsReader.__init__", sub('if source_path.endswith(".tdms_index"):', 'if source_path.endswith(".tdms"):'))),
+        (S, "TdmsReader.__init__: the index file beside the data file is opened but its path is not remembered (never closed)", RD, in_function("TdmsReader.__init__", sub("                    self._index_file_path = filepath\n                    self._index_file = open(self._index_file_path, \"rb\")", "                    self._index_file = open(filepath, \"rb\")"))),
+        (S, "TdmsReader.__init__: `if os.path.isfile(filepath)` -> `if not …`", RD, in_function("TdmsReader.__init__", sub("if os.path.isfile(filepath):", "if not os.path.isfile(filepath):"))),
+        (S, "TdmsReader.__init__: an unknown tag is accepted as a data file", RD, in_function("TdmsReader.__init__", sub('            elif tag == b"TDSm":\n', '            elif tag != b"TDSh":\n'))),
+        (C, "local `filepath` renamed in TdmsReader.__init__", RD, rename("TdmsReader.__init__", "filepath", "index_path")),
+        (C, "comment added", RD, after_line("TdmsReader.close", "self._file = None", "# a harmless comment")),
+        (C, "docstring added to TdmsWriter.close", WR, after_line("TdmsWriter.close", "def close(self):", '    """ Close what was opened. """')),
+    ]),
 }
+
+
+GENERATED = ("Code.lean", "Code2.lean")
 
 
 def prepare_project(idx):
@@ -204,15 +319,16 @@ def run_case(project, group, targets, kind, desc, rel, edit, baseline):
         return dict(group=group, kind=kind, desc=desc, outcome="EDIT-FAILED: %s" % ex, ok=False, secs=0.0)
     assert mutated != original, desc
     try:
-        code = pyast2lean.generate(REPO, overrides={rel: mutated}, strict=True)
+        codes = (pyast2lean.generate(REPO, overrides={rel: mutated}, strict=True),
+                 pyast2lean.generate2(REPO, overrides={rel: mutated}, strict=True))
     except pyast2lean.Untranslatable as ex:
         outcome = "untranslatable: %s" % ex.reason[:70]
         return dict(group=group, kind=kind, desc=desc, outcome=outcome, ok=(kind == S), secs=time.time() - t0)
-    if code == baseline:
-        return dict(group=group, kind=kind, desc=desc, outcome="same Code.lean", ok=(kind == C), secs=time.time() - t0)
-    path = os.path.join(project, "Tdms", "Generated", "Code.lean")
-    with open(path, "w") as f:
-        f.write(code)
+    if codes == baseline:
+        return dict(group=group, kind=kind, desc=desc, outcome="same Code.lean / Code2.lean", ok=(kind == C), secs=time.time() - t0)
+    for fname, code in zip(GENERATED, codes):
+        with open(os.path.join(project, "Tdms", "Generated", fname), "w") as f:
+            f.write(code)
     r = subprocess.run(["lake", "build"] + targets, cwd=project, stdout=subprocess.PIPE, stderr=subprocess.STDOUT, text=True)
     built = r.returncode == 0
     where = ""
@@ -228,9 +344,10 @@ def worker(idx, cases, baseline):
     out = []
     for case in cases:
         out.append(run_case(project, *case, baseline))
-    # leave the scratch project with the baseline Code.lean
-    with open(os.path.join(project, "Tdms", "Generated", "Code.lean"), "w") as f:
-        f.write(baseline)
+    # leave the scratch project with the baseline files
+    for fname, code in zip(GENERATED, baseline):
+        with open(os.path.join(project, "Tdms", "Generated", fname), "w") as f:
+            f.write(code)
     return out
 
 
@@ -241,9 +358,10 @@ def main():
     ap.add_argument("--keep", action="store_true")
     args = ap.parse_args()
     t0 = time.time()
-    baseline = pyast2lean.generate(REPO)
-    with open(os.path.join(LEAN, "Tdms", "Generated", "Code.lean")) as f:
-        assert f.read() == baseline, "lean/Tdms/Generated/Code.lean is not up to date: run harness/translate.py first"
+    baseline = (pyast2lean.generate(REPO), pyast2lean.generate2(REPO))
+    for fname, code in zip(GENERATED, baseline):
+        with open(os.path.join(LEAN, "Tdms", "Generated", fname)) as f:
+            assert f.read() == code, "lean/Tdms/Generated/%s is not up to date: run harness/translate.py first" % fname
     only = [x for x in args.only.split(",") if x]
     cases = []
     for group, (targets, muts) in GROUPS.items():
